@@ -919,7 +919,8 @@ func (d *driver) resolveSeqs(part partKey) {
 	}
 	cur, ok := d.cursor[part]
 	if !ok {
-		cur = -1
+		// a log starts behind its acknowledged sequence (-1 for a brand-new one)
+		cur = ps.log.Queue().AcknowledgedSeq()
 	}
 	to := ps.log.Queue().AppendedSeq()
 	for seq := cur + 1; seq <= to; seq++ {
